@@ -3,7 +3,7 @@
     min_frame_occupancy_for_label are parameters), equals the hand-written model Model/FramesRoll.frames_from_times
     for all arguments, bit for bit. *)
 From Coq Require Import ZArith Bool Floats.
-From NS Require Import Base.FloatBridge Gen.TrF Model.FramesRoll.
+From NS Require Import Base.FloatBridge Base.TrTac Base.TrTacF Gen.TrF Model.FramesRoll.
 Local Open Scope Z_scope.
 
 (** int() / math.ceil of a non-finite product raises: the translation returns None there. *)
@@ -13,16 +13,18 @@ Lemma trf_frames_from_times_eq fps occ s e :
 Proof.
   intros Fs Fe.
   unfold trf_frames_from_times, frames_from_times, sframe, eframe, gt0, fz, one, zero.
-  rewrite Fs. cbn zeta.
-  destruct (PrimFloat.ltb 0 occ && PrimFloat.ltb (f_of_Z (trunc (s * fps) + 1) - s * fps) occ)%float eqn:A.
-  - rewrite Fe. cbn zeta.
-    destruct (PrimFloat.ltb 0 occ && PrimFloat.ltb (e * fps - f_of_Z (trunc (s * fps) + 1) - f_of_Z 1) occ)%float eqn:B;
-      cbn zeta; change (f_of_Z 1) with 1%float in *; rewrite ?A, ?B; reflexivity.
-  - rewrite Fe. cbn zeta.
-    destruct (PrimFloat.ltb 0 occ && PrimFloat.ltb (e * fps - f_of_Z (trunc (s * fps)) - f_of_Z 1) occ)%float eqn:B;
-      cbn zeta; change (f_of_Z 1) with 1%float in *; rewrite ?A, ?B; reflexivity.
+  first [ solve [
+    rewrite Fs; cbn zeta;
+    destruct (PrimFloat.ltb 0 occ && PrimFloat.ltb (f_of_Z (trunc (s * fps) + 1) - s * fps) occ)%float eqn:A;
+    [ rewrite Fe; cbn zeta;
+      destruct (PrimFloat.ltb 0 occ && PrimFloat.ltb (e * fps - f_of_Z (trunc (s * fps) + 1) - f_of_Z 1) occ)%float eqn:B;
+        cbn zeta; change (f_of_Z 1) with 1%float in *; rewrite ?A, ?B; reflexivity
+    | rewrite Fe; cbn zeta;
+      destruct (PrimFloat.ltb 0 occ && PrimFloat.ltb (e * fps - f_of_Z (trunc (s * fps)) - f_of_Z 1) occ)%float eqn:B;
+        cbn zeta; change (f_of_Z 1) with 1%float in *; rewrite ?A, ?B; reflexivity ] ]
+  | trf_solve ].
 Qed.
 
 Lemma trf_frames_from_times_raises fps occ s e :
   finb (s * fps)%float = false -> trf_frames_from_times fps occ s e = None.
-Proof. intros Fs. unfold trf_frames_from_times. rewrite Fs. reflexivity. Qed.
+Proof. intros Fs. unfold trf_frames_from_times. first [ solve [rewrite Fs; reflexivity] | trf_solve ]. Qed.
